@@ -204,7 +204,12 @@ def main(tier, only=None):
     for name in bases:
         for mid, off, size, v, seal in fsweep.mutant_list(name, sealed=((True,) if quick and name != 'needsrec' else (False, True)), fields_filter=(steer if quick else None)):
             jobs.append((mid, name, [(off, size, v, seal)], False))
-    res = pmap(pipeline, jobs, chunksize=8)
+    # in slices, so that the global deadline can end the sweep (the evidence then says exhaustive: false and how many images were done)
+    res = []
+    for i0 in range(0, len(jobs), 16000):
+        if ck.expired(): ck.add(exhaustive=False); break
+        res += pmap(pipeline, jobs[i0:i0 + 16000], chunksize=8)
+    ck.cov['images_planned'] = len(jobs); ck.cov['images_done'] = len(res)
     runs = 0
     for (mid, n, bad), job in zip(res, jobs):
         runs += n
